@@ -86,6 +86,11 @@ def main():
         sh(['git', '-C', '/repo', 'worktree', 'remove', '--force', str(wt)])
         shutil.rmtree(wt, ignore_errors=True)
         shutil.rmtree(f'/var/tmp/mv/evidence-{name}', ignore_errors=True)
+        # the check regenerated lean/Mahotas/Generated from the patched tree: put back the text generated from /repo
+        import fcntl
+        with open(V / 'lean' / '.lake' / 'verif.lock', 'w') as lk:      # same lock as harness/core.py: no build is running
+            fcntl.flock(lk, fcntl.LOCK_EX)
+            sh(['git', '-C', str(V), 'checkout', '--', 'lean/Mahotas/Generated'])
     dst = V / 'seeded' / name
     dst.mkdir(parents=True, exist_ok=True)
     for fn in ('patch.diff', 'demo.py', 'notes.txt'):
